@@ -181,6 +181,7 @@ func (s *seqRun) guarded(desc string, f func()) bool {
 				done <- fmt.Sprintf("PANIC %v", r)
 			}
 		}()
+		atomic.StoreUint64(&seqMainGid, curGid()) // the request's own transactions run here
 		f()
 		done <- ""
 	}()
